@@ -21,13 +21,10 @@ OWNER = {"C08_r2": "C19", "C07_r4": "C06", "C18_r4": "C16", "C16_r5": "C09", "C0
 
 #: seeded changes only the thorough tier reaches (a 3-thread ordering inside two adjacent statements plus an in-process
 #: resubmission: about one evaluation in a few thousand); they are run in that tier whatever MUTANT_TIER says
-THOROUGH_ONLY = {"C08_r8", "C17_r9", "C07_r9"}
+THOROUGH_ONLY = {"C08_r8", "C17_r9", "C07_r9", "C07_r11"}
 
 #: seeded changes no check decides (see the seed's meta.json and DESIGN.md 12.7); they are run and reported, not counted
-#: C07_r11 (suspend decision taken outside the scheduler lock: a timer resubmission between the decision and
-#: _shutdown.set()) was missed by the quick tier at VERIF_SEED 0 and its thorough run was not made before the session
-#: ended: it is listed here as open, not as decided (DESIGN.md 12.14)
-UNDECIDED = {"C08_r5", "C07_r11"}
+UNDECIDED = {"C08_r5"}
 
 
 def sh(cmd, cwd=None, env=None, timeout=3600):
